@@ -10,6 +10,7 @@ import (
 	"fmt"
 	"math/rand"
 	"net"
+	"os"
 	"sort"
 	"strconv"
 	"strings"
@@ -117,8 +118,12 @@ type dummyAddr struct{}
 func (dummyAddr) Network() string { return "verif" }
 func (dummyAddr) String() string  { return "verif" }
 
-func (c *bufConn) Read(b []byte) (int, error)         { select {} }
-func (c *bufConn) Write(b []byte) (int, error)        { c.mu.Lock(); defer c.mu.Unlock(); return c.buf.Write(b) }
+func (c *bufConn) Read(b []byte) (int, error) { select {} }
+func (c *bufConn) Write(b []byte) (int, error) {
+	c.mu.Lock()
+	defer c.mu.Unlock()
+	return c.buf.Write(b)
+}
 func (c *bufConn) Close() error                       { return nil }
 func (c *bufConn) LocalAddr() net.Addr                { return dummyAddr{} }
 func (c *bufConn) RemoteAddr() net.Addr               { return dummyAddr{} }
@@ -422,6 +427,9 @@ func isPeersCase(c core.Case) bool {
 }
 
 func execCase(c core.Case) []string {
+	if isAcceptCase(c) {
+		return execAccept(c)
+	}
 	if isPeersCase(c) {
 		return execPeers(c)
 	}
@@ -501,6 +509,9 @@ func execCase(c core.Case) []string {
 func oracle(c core.Case, out []string) []core.Finding {
 	var fs []core.Finding
 	add := func(fp, d string) { fs = append(fs, core.Finding{Fingerprint: fp, Desc: d}) }
+	if isAcceptCase(c) {
+		return oracleAccept(c, out)
+	}
 	if isPeersCase(c) {
 		return oraclePeers(c, out)
 	}
@@ -1013,6 +1024,10 @@ func genPair(r *rand.Rand, emit func(core.Case), n int, long bool) {
 }
 
 func main() {
+	if len(os.Args) > 1 && os.Args[1] == "accept-child" {
+		acceptChildMain()
+		return
+	}
 	core.Main(core.Prop{
 		ID:     "C17",
 		Driver: "c17",
@@ -1029,12 +1044,13 @@ func main() {
 			genPair(r, emit, 10*n, true)
 			genReactor(r, emit, tier)
 			genPeers(r, emit, tier)
+			genAccept(r, emit, tier)
 		},
 		Exec:   execCase,
 		Oracle: oracle,
 		NonTrivial: func(c core.Case, out []string) bool {
 			for _, o := range out {
-				if strings.HasPrefix(o, "pkt ") || strings.HasPrefix(o, "recv=") || strings.HasPrefix(o, "err:") || strings.Contains(o, "=a") || strings.HasPrefix(o, "stopped") || strings.HasPrefix(o, "accepted") || strings.HasPrefix(o, "0=p0-m0") {
+				if strings.HasPrefix(o, "pkt ") || strings.HasPrefix(o, "recv=") || strings.HasPrefix(o, "err:") || strings.Contains(o, "=a") || strings.HasPrefix(o, "stopped") || strings.HasPrefix(o, "accepted") || strings.HasPrefix(o, "0=p0-m0") || o == "ErrRejected" || o == "alive" {
 					return true
 				}
 			}
